@@ -23,6 +23,8 @@ struct GenOpts {
   double spread = 0.6;           // horizontal spacing of tree roots
   bool dense_cluster = false;    // many single-geom free bodies within a few cm (broad-phase pair list stress)
   int cluster_n = 0;
+  bool cluster_convex = false;   // clusters also contain ellipsoids and cylinders (pairs that go through the convex GJK/EPA path)
+  int cluster_group = 0;         // >0: the cluster is split into groups of this many bodies, one metre apart (one constraint island each)
   bool explicit_pairs = false;   // many <pair> elements
   bool mocap = true, keyframes = true, tendons = true, equalities = true, actuators = true, sensors = true;
   const char* memory = "2M";
@@ -149,8 +151,9 @@ struct Gen {
       for (int i = 0; i < n; i++) {
         if (!keep()) continue;
         std::string nm = "c" + std::to_string(i);
-        wb += "<body name=\"" + nm + "\" pos=\"" + vec3(0.02 * (i % 4), 0.02 * ((i / 4) % 4), 0.3 + 0.015 * (i / 16)) + "\"><freejoint/><geom name=\"g_" + nm + "\" type=\"" +
-              (i % 3 == 0 ? "sphere\" size=\"0.05" : i % 3 == 1 ? "box\" size=\"0.04 0.04 0.04" : "capsule\" size=\"0.03 0.05") + "\"/></body>";
+        wb += "<body name=\"" + nm + "\" pos=\"" + vec3(0.02 * (i % 4) + (o.cluster_group > 0 ? 1.0 * (i / o.cluster_group) : 0.0), 0.02 * ((i / 4) % 4), 0.3 + 0.015 * (i / 16)) + "\"><freejoint/><geom name=\"g_" + nm + "\" type=\"" +
+              (o.cluster_convex && i % 5 == 3 ? "ellipsoid\" size=\"0.05 0.04 0.03" : o.cluster_convex && i % 5 == 4 ? "cylinder\" size=\"0.04 0.04"
+               : i % 3 == 0 ? "sphere\" size=\"0.05" : i % 3 == 1 ? "box\" size=\"0.04 0.04 0.04" : "capsule\" size=\"0.03 0.05") + "\"/></body>";
         bodies.push_back(nm); freebodies.push_back(nm); geoms.push_back("g_" + nm); m.nbody++; m.ngeom++; m.njoint++;
       }
     } else {
